@@ -780,6 +780,54 @@ func c01Ops() []c01Op {
 			})
 		})
 	}
+	// an incoming map that already holds the short name of a LATER row (second alignment of a file, map of an
+	// earlier run): new short names must stay distinct from it
+	add("trimNames:4:premapped-last", true, true, func(w *c01World) {
+		if !c01NoDupNeeded(w) || len(w.m.Rows) < 2 {
+			w.pruned = true
+			return
+		}
+		// what the operation would give the first row when it runs alone
+		probe := map[string]string{}
+		var perr error
+		var first string
+		var cl align.SeqBag
+		var cerr error
+		if w.al() != nil {
+			cl, cerr = mkAlign(w.m.Alphabet, w.m.Rows)
+		} else {
+			cl, cerr = mkSeqBag(w.m.Alphabet, w.m.Rows)
+		}
+		if cerr != nil {
+			w.pruned = true
+			return
+		}
+		if pn, _ := mc.Guard(func() { perr = cl.TrimNames(probe, 4) }); pn || perr != nil {
+			w.pruned = true
+			return
+		}
+		first = probe[w.m.Rows[0].Name]
+		last := w.m.Rows[len(w.m.Rows)-1].Name
+		if first == "" || last == w.m.Rows[0].Name {
+			w.pruned = true
+			return
+		}
+		nm := map[string]string{last: first} // the later row already owns that short name
+		var err error
+		if !w.call(func() { err = w.real.TrimNames(nm, 4) }) {
+			return
+		}
+		if err != nil {
+			w.pruned = true
+			return
+		}
+		w.relNames("TrimNames", nm, nil)
+		if !w.pruned {
+			if got, ok := w.observed(); ok && got[len(got)-1].Name != first {
+				w.fail("name-map", "TrimNames does not give row %q the short name %q the incoming map holds for it (got %q)", last, first, got[len(got)-1].Name)
+			}
+		}
+	})
 	add("trimNamesAuto", true, true, func(w *c01World) {
 		if !c01NoDupNeeded(w) {
 			return
@@ -857,6 +905,42 @@ func c01Ops() []c01Op {
 				return
 			}
 			w.relSample("SampleSeqBag", s, n, false)
+		})
+	}
+	// a sample is a new object: renaming ITS rows must leave this container, and the agreement of its
+	// lookups, as they are (the sample is dropped, the history continues on the source)
+	for _, bag := range []bool{false, true} {
+		bag := bag
+		nme := "sampleKept:n+renameSample"
+		if bag {
+			nme = "sampleSeqBagKept:n+renameSample"
+		}
+		add(nme, true, bag, func(w *c01World) {
+			n := len(w.m.Rows)
+			if n == 0 || !c01NoDupNeeded(w) || c01TooManyForRNG(w) {
+				w.pruned = true
+				return
+			}
+			var s align.SeqBag
+			var err error
+			if !w.call(func() {
+				if bag {
+					s, err = w.real.SampleSeqBag(n)
+				} else {
+					s, err = w.al().Sample(n)
+				}
+			}) {
+				return
+			}
+			if err != nil || s == nil {
+				w.pruned = true
+				return
+			}
+			w.call(func() {
+				s.AppendSeqIdentifier("zz", false)
+				s.RenameRegexp("^", "y", map[string]string{})
+			})
+			// the model is unchanged: check() compares the source with it
 		})
 	}
 	// --- filtering
@@ -981,6 +1065,110 @@ func c01Ops() []c01Op {
 				b := make([]byte, 0, len(keep))
 				for _, j := range keep {
 					b = append(b, r.Seq[j])
+				}
+				w.m.Rows[i].Seq = string(b)
+			}
+		})
+	}
+	// --- cleaning by majority / chosen character, all-sites and ends mode: which units qualify is decided by
+	// the oracle of C12 (c12Expectation); a unit the statement leaves open prunes the history
+	for _, cl := range []struct {
+		n     string
+		set   string
+		maj   bool
+		cut   float64
+		ends  bool
+		seqs  bool
+		igaps bool
+	}{
+		{"maj:0.5:all", "", true, 0.5, false, false, false}, {"maj:0.5:ends", "", true, 0.5, true, false, false},
+		{"maj:1:ends", "", true, 1, true, false, false}, {"maj:1:all:ignoregaps", "", true, 1, false, false, true},
+		{"char:C:0.5:all", "C", false, 0.5, false, false, false}, {"char:C:0.5:ends", "C", false, 0.5, true, false, false},
+		{"char:A:1:ends", "A", false, 1, true, false, false}, {"char:AC:0:ends", "AC", false, 0, true, false, false},
+		{"seqs:A:0.5", "A", false, 0.5, false, true, false}, {"seqs:-:0.5", "-", false, 0.5, false, true, false},
+	} {
+		cl := cl
+		add("clean:"+cl.n, true, false, func(w *c01World) {
+			n, L := len(w.m.Rows), w.m.lenOr(0)
+			if n == 0 || L == 0 || n > 16 || L > 16 {
+				w.pruned = true
+				return
+			}
+			if cl.seqs && !c01NoDupNeeded(w) {
+				return
+			}
+			p := c12Params{set: cl.set, maj: cl.maj, cut: cl.cut, ends: cl.ends, seqwise: cl.seqs, ig: cl.igaps, wild: 'N', other: 'X'}
+			if w.m.Alphabet == align.AMINOACIDS {
+				p.wild, p.other = 'X', 'N'
+			}
+			var seqs []string
+			for _, r := range w.m.Rows {
+				seqs = append(seqs, r.Seq)
+			}
+			var rm []int
+			var gotRm uint32
+			if cl.seqs {
+				before := w.m.Rows.clone()
+				if !w.call(func() {
+					if cl.set == "-" {
+						w.al().RemoveGapSeqs(cl.cut, false)
+					} else {
+						w.al().RemoveCharacterSeqs(cl.set[0], cl.cut, false, false, false)
+					}
+				}) {
+					return
+				}
+				got, ok := w.observed()
+				if !ok {
+					return
+				}
+				kept := map[string]bool{}
+				for _, r := range got {
+					kept[r.Name] = true
+				}
+				for i, r := range before {
+					if !kept[r.Name] {
+						gotRm |= 1 << uint(i)
+					}
+				}
+			} else {
+				if !w.call(func() {
+					if cl.maj {
+						_, _, _, rm = w.al().RemoveMajorityCharacterSites(cl.cut, cl.ends, cl.igaps, false)
+					} else {
+						_, _, _, rm = w.al().RemoveCharacterSites([]uint8(cl.set), cl.cut, cl.ends, false, false, false, false)
+					}
+				}) {
+					return
+				}
+				for _, j := range rm {
+					if j >= 0 && j < L {
+						gotRm |= 1 << uint(j)
+					}
+				}
+			}
+			var e c12Expect
+			c12Expectation(&e, seqs, &p, c12Variant{}, gotRm)
+			if e.skips != 0 {
+				w.pruned, w.skip = true, "cleaning: a unit whose verdict the statement leaves open (C12 assumptions)"
+				return
+			}
+			if cl.seqs {
+				var out rows
+				for i, r := range w.m.Rows {
+					if e.rm&(1<<uint(i)) == 0 {
+						out = append(out, r)
+					}
+				}
+				w.m.Rows = out
+				return
+			}
+			for i, r := range w.m.Rows {
+				b := make([]byte, 0, L)
+				for j := 0; j < L; j++ {
+					if e.rm&(1<<uint(j)) == 0 {
+						b = append(b, r.Seq[j])
+					}
 				}
 				w.m.Rows[i].Seq = string(b)
 			}
@@ -1428,6 +1616,7 @@ var c01Inits = []c01Init{
 	{"dup-name", true, align.NUCLEOTIDS, rows{{"a", "AC"}, {"a_0001", "AC"}}},
 	{"odd-names", true, align.NUCLEOTIDS, rows{{" x.y", "AC"}, {"z;w ", "GT"}}},
 	{"protein", true, align.AMINOACIDS, rows{{"a", "MK"}, {"b", "M-"}}},
+	{"3x5-mid", true, align.NUCLEOTIDS, rows{{"a", "AC-AA"}, {"b", "TC-TC"}, {"c", "GCAGG"}}},
 	{"bag-ragged", false, align.NUCLEOTIDS, rows{{"c", "ATGAAC"}, {"a", "ATG"}, {"b", "A"}}},
 	{"bag-empty", false, align.NUCLEOTIDS, nil},
 }
@@ -1722,7 +1911,7 @@ func init() {
 		Level: "model_checking",
 		Rule: fmt.Sprintf("explicit-state breadth-first search over ALL histories of up to 3 operations drawn from %d concrete public SeqBag/Alignment operations (thorough: additionally all histories of up to 4 operations drawn from a core of 36 of them) "+
 			"(IgnoreIdentical x3 policies, AddSequence {existing, new, auto-renamed name} x {same length, same content, wrong length}, Append/Concat with 0/1/all shared names, wrong length and empty arguments, Rename incl. swap and caller-made collision, RenameRegexp, AppendSeqIdentifier, CleanNames, TrimNames, TrimNamesAuto, Sort, ShuffleSequences and Sample/SampleSeqBag under EVERY sequence of RNG answers, FilterLength over 25 bound pairs, Deduplicate, RemoveGapSeqs/Sites at cut-offs 0 and 1, Translate in frames 0,1,2 and all three, TrimSequences, SubAlign/SelectSites/Clone/CloneSeqBag/Unalign with adoption of the result, Compress, Clear, ToUpper/ToLower, ReplaceChar, SetSequenceChar) "+
-			"from %d initial containers (empty, 1x1, 2x2, mixed case, 3x6 coding, one column, auto-renamed duplicate name, names with special characters, protein, ragged sequence set, empty set); states de-duplicated on the private representation (rows, name index, cached length, alphabet, policy, buffer aliasing); "+
+			"from %d initial containers (empty, 1x1, 2x2, mixed case, 3x6 coding, 3x5 with qualifying sites only in the middle, one column, auto-renamed duplicate name, names with special characters, protein, ragged sequence set, empty set); states de-duplicated on the private representation (rows, name index, cached length, alphabet, policy, buffer aliasing); "+
 			"after EVERY transition: equality with a list-of-(name,sequence) reference model + rectangularity + index/name/iteration lookups agree + names distinct unless caller-made. states = canonical states (distinct within a shard), transitions = real operation calls checked, distinct_nontrivial = distinct (initial container, canonical state) reached by a successful state-changing operation.", len(c01OpList), len(c01Inits)),
 		Assumptions: []string{
 			"state key = complete private state of seqbag/align (dumped by an overlay-added file of package align), including for every row whether its buffer has spare capacity and whether that capacity overlaps an earlier row's (an in-place append reads both) — public methods read nothing else, so equal keys have equal futures",
